@@ -97,16 +97,16 @@ PENDING = {}
 # what round 2 added to the checks (appended to the claim text)
 EXTRA = {
  'C02': ' The buffer-manager level (BufMgr.tla) lays the classes out with no slack behind the last slot.',
- 'C05': ' The retry path of Stream.Flush (queue full at the first attempt, consumer drains and goes idle between two attempts) is staged on a real session pair with the same stranded-element oracle.',
+ 'C05': ' The retry path of Stream.Flush (queue full at the first attempt, consumer drains and goes idle between two attempts) is staged on a real session pair with the same stranded-element oracle. Round 3: staged backlog scenarios (300 / 5000 elements consumed by ONE polling round on a queue of 8192, then one more element) - magnitudes the TLC constants (capacities 2-5) do not reach.',
  'C07': ' Every second configuration uses 9-byte messages (a chain of three buffers); the payload of every recycled buffer and the connection read buffer are scribbled by the harness (aliasing / use-after-recycle show deterministically); the Blocking module\'s read waiter with a gate in front of readMore\'s select decides "told the stream ended with flushed bytes delivered and unread" when the peer\'s last data and its close are both ready.',
- 'C09': ' Additional passes: staged Flush-retry scenarios, the BytePipe histories, and the Callback module (TLC behaviours + statement-granular random interleavings of Close against delivery) with the ledger and the integrity of every free list checked after both ends closed.',
+ 'C09': ' Additional passes: staged Flush-retry scenarios, the BytePipe histories, and the Callback module (TLC behaviours + statement-granular random interleavings of Close against delivery) with the ledger and the integrity of every free list checked after both ends closed. Round 3: staged fault scenario \'corrupt queue element behind a good message\' (exact ledger, free-list integrity, foreign buffers untouched) and the backlog scenarios.',
  'C11': ' Round 2 added the callback-mode read waiter (the reader is the callback goroutine blocked inside OnData) and the property "a completed close by either end releases the reader".',
- 'C14': ' An additional pass (Listener.tla, checks/listenermod.py) covers the server-side Listener: accept loop, session set, Close from two goroutines, accept errors, session death at any point; TLC edge cover walked on a real Listener over a real unix socket. Round 2 also added writer call sequences after teardown and a Flush parked in the queue-full retry loop at the moment of death.',
+ 'C14': ' An additional pass (Listener.tla, checks/listenermod.py) covers the server-side Listener: accept loop, session set, Close from two goroutines, accept errors, session death at any point; TLC edge cover walked on a real Listener over a real unix socket. Round 2 also added writer call sequences after teardown and a Flush parked in the queue-full retry loop at the moment of death. Round 3: severed-connection pass - real sessions over a byte relay; the peer goes away by clean close, close with unread bytes in its socket (the survivor\'s read fails with ECONNRESET) or half-close; survivor server/client, read pending or idle; oracle = postcondition of the spec step PeerDies.',
  'C15': ' Round 2 added callback-mode pooled streams (PutBack while OnData runs, failing/succeeding reset) and statement-granular interleaving of a second caller inside PutBack.',
  'C16': ' Round 2 added failing reconnect attempts, a new server that binds and then refuses connections, and a notification whose write fails (session gone).',
  'C17': ' Round 2 added failing reconnect attempts (WRetry), restart events while the new server refuses connections, Close during a rebuild.',
  'C18': ' EventConnDispatch.tla (round 2) adds the epoll event-mask dimension of handleEvent (IN/OUT/RDHUP coalesced in one event while a writer is parked after EAGAIN), staged deterministically on the real epoll dispatcher.',
- 'C19': ' Round 2 added two goroutines closing the same accepted conn, at the granularity of streamWrapper.Close\'s statements.',
+ 'C19': ' Round 2 added two goroutines closing the same accepted conn, at the granularity of streamWrapper.Close\'s statements. Round 3: fallback-conn pass - the byte-stream oracle on conns that left shared memory (oversized Write), Write sequences with the reader idle until 1, 2 or all have arrived, both directions, real Listen/Accept.',
  'C20': ' Random interleavings on the real code at three granularities, the finest with a scheduling point in front of every statement of pendingData.*, Stream.clean, linkedBuffer.recycle/cleanPinnedList/clean and sliceList.* (half of the runs with few preemptions), readers that keep slices pinned, panic capture and the buffer ledger / free-list integrity after close; design invariant CleanAlone.',
 }
 
